@@ -57,7 +57,7 @@ def cases(draw):
     return {"draft": d, "schema_state": sstate, "schema": schema, "validator": explicit, "instances": insts,
             "stdin": stdin, "output": output, "error_format": fmt, "base_uri": base_uri,
             "subprocess": draw(st.integers(0, 39)) == 0, "local_ref": draw(st.integers(0, 3)) == 0,
-            "id_redirect": draw(st.booleans())}
+            "id_redirect": draw(st.booleans()), "spaced_ref": draw(st.booleans())}
 
 
 NOT_JSON = '{"unterminated": [1, 2'
@@ -83,21 +83,29 @@ def materialise(case, tmp):
     if case["base_uri"] and case["schema_state"] == "valid" and isinstance(schema, dict):
         # move the real schema to a sibling file and refer to it relatively
         used = case["validator"] or (case["draft"] if "$schema" in schema else 7)
+        fname, fref = ("other file.json", "other%20file.json") if case.get("spaced_ref") else ("other.json", "other.json")
+        if case.get("spaced_ref"):
+            # a file whose NAME is the escaped spelling sits next to the real one: a reference is a URI, its path is
+            # percent-decoded before it becomes a file name
+            for dd in ("", "real"):
+                os.makedirs(os.path.join(tmp, dd), exist_ok=True)
+                with open(os.path.join(tmp, dd, fref), "w") as f:
+                    json.dump({"definitions": {"x y": {"enum": ["only-the-escaped-twin-accepts-this"]}}}, f)
         if case.get("id_redirect"):
             # the root schema declares an id of its own in ANOTHER directory: relative references follow the id, not
             # the --base-uri (which only stands in for the retrieval URI); a decoy with the same name sits where the
             # base URI points
             os.makedirs(os.path.join(tmp, "real"), exist_ok=True)
-            with open(os.path.join(tmp, "real", "other.json"), "w") as f:
+            with open(os.path.join(tmp, "real", fname), "w") as f:
                 json.dump({"definitions": {"x y": schema}}, f)
-            with open(os.path.join(tmp, "other.json"), "w") as f:
+            with open(os.path.join(tmp, fname), "w") as f:
                 json.dump({"definitions": {"x y": {"enum": ["only-the-decoy-accepts-this"]}}}, f)
             top = {"id" if used <= 4 else "$id": "file://" + tmp + "/real/",
-                   "extends" if used == 3 else "allOf": [{"$ref": "other.json#/definitions/x%20y"}]}
+                   "extends" if used == 3 else "allOf": [{"$ref": fref + "#/definitions/x%20y"}]}
         else:
-            with open(os.path.join(tmp, "other.json"), "w") as f:
+            with open(os.path.join(tmp, fname), "w") as f:
                 json.dump({"definitions": {"x y": schema}}, f)
-            top = {"$ref": "other.json#/definitions/x%20y"}
+            top = {"$ref": fref + "#/definitions/x%20y"}
         if "$schema" in schema:
             top["$schema"] = schema["$schema"]
         schema = top
